@@ -7,7 +7,10 @@
      DoBOL     Operator._mainOperate: interactAllBOL()
      Call      Operator._interactAll: the hook of the next interface of the event is called and its answer is or-ed into
                `halt` (the code writes `halt = halt or interactMethod(args)`; see "Where the code departs" below)
-     EndBOL    _mainOperate: startingCycle = r.p.cycle; enter `for cycle in range(startingCycle, nCycles)`
+     SampleStart  _mainOperate: `startingCycle = self.r.p.cycle` -- THE read point of the restart position: it comes after
+               the whole BOL event, because a beginning-of-life hook may move the reactor's time state (MainInterface.
+               interactBOL does so for loadStyle=fromDB: r.p.cycle/timeNode = startCycle/startNode); then enter
+               `for cycle in range(startingCycle, nCycles)`; _cycleLoop reads the start node from r.p.timeNode
      EndBOC    _cycleLoop after interactAllBOC: `if halt: return False` (-> EOL), else first time node
      EndEN     _timeNodeLoop / _performTightCoupling after interactAllEveryNode: coupling off -> next node;
                cycle exempt (cyclesSkipTightCouplingInteraction) or cap 0 -> DB write; else first coupled iteration
@@ -20,8 +23,10 @@
 
    State
      cfg      the configuration of the run (constant along a behaviour):
-                steps[c+1] burn steps of cycle c; sc, sn restart point (= r.p.cycle, r.p.timeNode when operate() is
-                entered, as MainInterface.interactBOL leaves them from startCycle/startNode);
+                steps[c+1] burn steps of cycle c; sc, sn the restart point;
+                bolset = 0: operate() is entered with r.p.cycle, r.p.timeNode = sc, sn already in place;
+                bolset = i > 0: operate() is entered at (0, 0) and interactBOL of interface i assigns
+                r.p.cycle, r.p.timeNode = sc, sn (if that interface is not called at BOL the run starts at (0, 0));
                 ifs the stack (OperatorStack.tla); dcyc = deferredInterfacesCycle;
                 tight = tightCoupling, cap = tightCouplingMaxNumIters, skip[c+1] = c in cyclesSkipTightCouplingInteraction
      pc, cycle, node, iter, queue, halt, conv     loop state (queue = interfaces still to be called in the event)
@@ -36,8 +41,9 @@
    interactBOC, meaningless otherwise), and whether a coupler reports convergence in a given iteration.
 
    Interpretation choices
-   * restart: the loop starts from the reactor's (cycle, timeNode) at entry; restart points are inside the history
-     (sc < nCycles, sn <= steps[sc]).
+   * restart: the loop starts from the reactor's (cycle, timeNode) as they are AFTER the BOL event (SampleStart), whether
+     they were in place at entry or written by a BOL hook; restart points are inside the history (sc < nCycles,
+     sn <= steps[sc]).  The hooks of the BOL event that run before the setting hook see the old time state.
    * cap = 0 with coupling on means "no iteration" (the cap is reached at once); the run goes on.
    * every event is dispatched to "exactly the interfaces that are enabled ... once each": a halt request by one
      interface does not take the BOC hook away from the interfaces after it, and what a hook other than interactBOC
@@ -57,9 +63,9 @@ EXTENDS Integers, Sequences, FiniteSets, TLC, Json, SequencesExt, FiniteSetsExt,
 CONSTANTS Configs
 
 VARIABLES cfg, pc, cycle, node, iter, queue, halt, conv, rc, rn, ci, sl, pw, log,
-          evs, cvs, called, lastc, haltedAt, haltReq
-vars == <<cfg, pc, cycle, node, iter, queue, halt, conv, rc, rn, ci, sl, pw, log, evs, cvs, called, lastc, haltedAt, haltReq>>
-viewvars == <<cfg, pc, cycle, node, iter, queue, halt, conv, rc, rn, ci, sl, pw, evs, cvs, called, lastc, haltedAt, haltReq>>
+          evs, cvs, called, lastc, haltedAt, haltReq, startAt
+vars == <<cfg, pc, cycle, node, iter, queue, halt, conv, rc, rn, ci, sl, pw, log, evs, cvs, called, lastc, haltedAt, haltReq, startAt>>
+viewvars == <<cfg, pc, cycle, node, iter, queue, halt, conv, rc, rn, ci, sl, pw, evs, cvs, called, lastc, haltedAt, haltReq, startAt>>
 
 NoRef == <<-1, -1>>
 Full  == <<-2, -2>>
@@ -76,13 +82,16 @@ ConfigOK(c) ==
     /\ Len(c.steps) >= 1 /\ \A k \in 1..Len(c.steps) : c.steps[k] \in Nat
     /\ c.sc \in 0..(Len(c.steps) - 1) /\ c.sn \in 0..c.steps[c.sc + 1]
     /\ Len(c.ifs) >= 1 /\ \A k \in 1..Len(c.ifs) : c.ifs[k] \in IfaceRec
-    /\ c.dcyc \in Nat /\ c.tight \in BOOLEAN /\ c.cap \in Nat
+    /\ c.dcyc \in Nat /\ c.tight \in BOOLEAN /\ c.cap \in Nat /\ c.bolset \in 0..Len(c.ifs)
     /\ Len(c.skip) = Len(c.steps) /\ \A k \in 1..Len(c.skip) : c.skip[k] \in BOOLEAN
 
+\* the reactor's time state when operate() is entered
+EntryPoint(c) == IF c.bolset = 0 THEN <<c.sc, c.sn>> ELSE <<0, 0>>
 InitWith(c) ==
-    /\ cfg = c /\ pc = "Start" /\ cycle = c.sc /\ node = c.sn /\ iter = 0 /\ queue = <<>> /\ halt = FALSE /\ conv = TRUE
-    /\ rc = c.sc /\ rn = c.sn /\ ci = 0 /\ sl = NoRef /\ pw = NoRef /\ log = <<>>
-    /\ evs = <<>> /\ cvs = <<>> /\ called = <<>> /\ lastc = NoCall /\ haltedAt = None /\ haltReq = <<>>
+    /\ cfg = c /\ pc = "Start" /\ cycle = EntryPoint(c)[1] /\ node = EntryPoint(c)[2] /\ iter = 0 /\ queue = <<>>
+    /\ halt = FALSE /\ conv = TRUE
+    /\ rc = EntryPoint(c)[1] /\ rn = EntryPoint(c)[2] /\ ci = 0 /\ sl = NoRef /\ pw = NoRef /\ log = <<>>
+    /\ evs = <<>> /\ cvs = <<>> /\ called = <<>> /\ lastc = NoCall /\ haltedAt = None /\ haltReq = <<>> /\ startAt = NoRef
 Init == \E c \in Configs : InitWith(c)
 
 (* ---------- transitions between events; each fixes every variable except log, lastc ---------- *)
@@ -95,7 +104,7 @@ BeginCycleT(c, first) ==
     /\ rn' = (IF first THEN rn ELSE 0)
     /\ node' = rn'                               \* startingNode
     /\ halt' = FALSE
-    /\ UNCHANGED <<cfg, iter, conv, sl, pw, cvs, haltedAt, haltReq>>
+    /\ UNCHANGED <<cfg, iter, conv, sl, pw, cvs, haltedAt, haltReq>>      \* startAt is left to the caller
 
 \* `from` is the next index of `for timeNode in range(startingNode, burnSteps[cycle])`; when the range is exhausted the
 \* else-branch runs the last node burnSteps[cycle]
@@ -107,33 +116,33 @@ EnterNodeT(from) ==
        /\ node' = n /\ rn' = n /\ iter' = 0 /\ cvs' = <<>>
        /\ sl' = (IF regular THEN <<cycle, n>> ELSE sl)
        /\ pw' = (IF regular THEN <<cycle, n>> ELSE IF b = 0 THEN Full ELSE <<cycle, b - 1>>)
-       /\ UNCHANGED <<cfg, cycle, halt, conv, rc, ci, haltedAt, haltReq>>
+       /\ UNCHANGED <<cfg, cycle, halt, conv, rc, ci, haltedAt, haltReq, startAt>>
 
 BeginEOCT ==
     /\ Begin("EOC", cycle, Hdr("EOC", cycle, None))
-    /\ UNCHANGED <<cfg, cycle, node, iter, halt, conv, rc, rn, ci, sl, pw, cvs, haltedAt, haltReq>>
+    /\ UNCHANGED <<cfg, cycle, node, iter, halt, conv, rc, rn, ci, sl, pw, cvs, haltedAt, haltReq, startAt>>
 
 BeginEOLT(hAt, hReq) ==
     /\ Begin("EOL", cycle, Hdr("EOL", None, None))
     /\ haltedAt' = hAt /\ haltReq' = hReq
-    /\ UNCHANGED <<cfg, cycle, node, iter, halt, conv, rc, rn, ci, sl, pw, cvs>>
+    /\ UNCHANGED <<cfg, cycle, node, iter, halt, conv, rc, rn, ci, sl, pw, cvs>>      \* startAt is left to the caller
 
 AfterNodeT == IF node < B(cycle) THEN EnterNodeT(node + 1) ELSE BeginEOCT
 
 BeginIterT(k) ==
     /\ pc' = "CPL" /\ queue' = Active("CPL", cycle) /\ called' = <<>>
     /\ iter' = k /\ ci' = k + 1 /\ conv' = TRUE
-    /\ UNCHANGED <<cfg, cycle, node, halt, rc, rn, sl, pw, evs, haltedAt, haltReq>>
+    /\ UNCHANGED <<cfg, cycle, node, halt, rc, rn, sl, pw, evs, haltedAt, haltReq, startAt>>
 
 ToDbWriteT ==
     /\ pc' = "DBW" /\ queue' = <<>> /\ called' = <<>>
-    /\ UNCHANGED <<cfg, cycle, node, iter, halt, conv, rc, rn, ci, sl, pw, evs, haltedAt, haltReq>>
+    /\ UNCHANGED <<cfg, cycle, node, iter, halt, conv, rc, rn, ci, sl, pw, evs, haltedAt, haltReq, startAt>>
 
 (* ---------- actions ---------- *)
 DoBOL ==
     /\ pc = "Start"
     /\ Begin("BOL", rc, Hdr("BOL", None, None))
-    /\ UNCHANGED <<cfg, cycle, node, iter, halt, conv, rc, rn, ci, sl, pw, cvs, haltedAt, haltReq, log, lastc>>
+    /\ UNCHANGED <<cfg, cycle, node, iter, halt, conv, rc, rn, ci, sl, pw, cvs, haltedAt, haltReq, startAt, log, lastc>>
 
 Entry(i, ret, cv) ==
     [e |-> pc, i |-> i,
@@ -157,17 +166,21 @@ Call ==
           /\ halt' = (IF pc = "BOC" THEN halt \/ ret ELSE halt)
           /\ conv' = (IF pc = "CPL" THEN conv /\ cv ELSE conv)
     /\ queue' = Tail(queue)
-    /\ UNCHANGED <<cfg, pc, cycle, node, iter, rc, rn, ci, sl, pw, evs, cvs, haltedAt, haltReq>>
+    \* the restart-setting BOL hook moves the reactor's time state (the entry above shows what the hook saw on entry)
+    /\ IF pc = "BOL" /\ Head(queue) = cfg.bolset THEN rc' = cfg.sc /\ rn' = cfg.sn ELSE UNCHANGED <<rc, rn>>
+    /\ UNCHANGED <<cfg, pc, cycle, node, iter, ci, sl, pw, evs, cvs, haltedAt, haltReq, startAt>>
 
-EndBOL ==
+\* the read point: the BOL event is over; startingCycle = r.p.cycle, and _cycleLoop takes r.p.timeNode as the starting node
+SampleStart ==
     /\ pc = "BOL" /\ queue = <<>>
+    /\ startAt' = <<rc, rn>>
     /\ IF rc < NCycles THEN BeginCycleT(rc, TRUE) ELSE BeginEOLT(haltedAt, haltReq)
     /\ UNCHANGED <<log, lastc>>
 
 EndBOC ==
     /\ pc = "BOC" /\ queue = <<>>
     /\ LET req == \E k \in 1..Len(called) : called[k].ret IN
-       IF halt THEN BeginEOLT(cycle, IF req THEN Append(haltReq, cycle) ELSE haltReq)
+       IF halt THEN BeginEOLT(cycle, IF req THEN Append(haltReq, cycle) ELSE haltReq) /\ UNCHANGED startAt
        ELSE EnterNodeT(node)
     /\ UNCHANGED <<log, lastc>>
 
@@ -196,14 +209,14 @@ DbWrite ==
 EndEOC ==
     /\ pc = "EOC" /\ queue = <<>>
     /\ IF cycle + 1 < NCycles THEN BeginCycleT(cycle + 1, FALSE) ELSE BeginEOLT(haltedAt, haltReq)
-    /\ UNCHANGED <<log, lastc>>
+    /\ UNCHANGED <<log, lastc, startAt>>
 
 EndEOL ==
     /\ pc = "EOL" /\ queue = <<>>
     /\ pc' = "Done"
-    /\ UNCHANGED <<cfg, cycle, node, iter, queue, halt, conv, rc, rn, ci, sl, pw, log, evs, cvs, called, lastc, haltedAt, haltReq>>
+    /\ UNCHANGED <<cfg, cycle, node, iter, queue, halt, conv, rc, rn, ci, sl, pw, log, evs, cvs, called, lastc, haltedAt, haltReq, startAt>>
 
-Control == DoBOL \/ EndBOL \/ EndBOC \/ EndEN \/ EndCPL \/ EndEOC \/ EndEOL
+Control == DoBOL \/ SampleStart \/ EndBOC \/ EndEN \/ EndCPL \/ EndEOC \/ EndEOL
 Next == Control \/ Call \/ DbWrite
 
 (* ---------- the reference schedule: the obvious nested loop ---------- *)
@@ -213,12 +226,16 @@ CycleHdrs(c, from, haltedHere) ==
     (IF haltedHere THEN <<>>
      ELSE [k \in 1..Len(CycleVisit(cfg.steps, c, from)) |-> Hdr("EN", c, CycleVisit(cfg.steps, c, from)[k][2])]
           \o <<Hdr("EOC", c, None)>>)
+\* the start of the loop, declaratively: the restart point if it was in place at entry or if the interface that sets it is
+\* called at BOL, else the entry point (0, 0)
+EffStart == IF cfg.bolset = 0 \/ cfg.bolset \in ActiveSet(cfg.ifs, "BOL", 0, cfg.dcyc, {}) THEN <<cfg.sc, cfg.sn>> ELSE <<0, 0>>
+
 \* hAt = the cycle whose BOC asked for a halt, or None
 RefHeaders(hAt) ==
     LET last == IF hAt = None THEN NCycles - 1 ELSE hAt IN
     <<Hdr("BOL", None, None)>>
-    \o FlattenSeq([k \in 1..(last - cfg.sc + 1) |->
-                      CycleHdrs(cfg.sc + k - 1, IF k = 1 THEN cfg.sn ELSE 0, cfg.sc + k - 1 = hAt)])
+    \o FlattenSeq([k \in 1..(last - EffStart[1] + 1) |->
+                      CycleHdrs(EffStart[1] + k - 1, IF k = 1 THEN EffStart[2] ELSE 0, EffStart[1] + k - 1 = hAt)])
     \o <<Hdr("EOL", None, None)>>
 
 Count(s, P(_)) == Len(SelectSeq(s, P))
@@ -226,18 +243,31 @@ ENs == SelectSeq(evs, LAMBDA h : h[1] = "EN")
 CalledIds == [k \in 1..Len(called) |-> called[k].i]
 
 (* ---------- the clauses of the statement ---------- *)
+\* evs, haltedAt and startAt only change when an event begins (called is reset to <<>> there), so the clauses over them need
+\* to be evaluated in those states only (and at Done); this is purely a saving of model-checking time
+AtEventStart == called = <<>> \/ pc = "Done"
+
 TypeOK == ConfigOK(cfg) /\ pc \in Events \cup {"Start", "DBW", "Done"}
 
 \* "calls beginning-of-life once" (and first)
 BOLOnceFirst ==
+  AtEventStart =>
     /\ Count(evs, LAMBDA h : h[1] = "BOL") = (IF pc = "Start" THEN 0 ELSE 1)
     /\ evs # <<>> => evs[1] = Hdr("BOL", None, None)
+\* "from the start cycle ... from the start node": the start is read once, after the whole BOL event, and is what the reactor
+\* holds then -- also when a BOL hook has just put it there
+StartSampledAfterBOL ==
+    /\ (pc \in {"Start", "BOL"}) <=> (startAt = NoRef)
+    /\ startAt # NoRef => startAt = EffStart
+    /\ (pc = "BOL" /\ queue = <<>>) => <<rc, rn>> = EffStart
 \* "then for each cycle from the start cycle: beginning-of-cycle, every time node from the start node to the last ...,
 \*  end-of-cycle; then end-of-life once; a halt request at beginning-of-cycle stops the loop and still runs end-of-life"
 ScheduleIsNestedLoop ==
+  AtEventStart =>
     /\ IsPrefix(evs, RefHeaders(haltedAt))
     /\ pc = "Done" => evs = RefHeaders(haltedAt)
 EOLOnceLast ==
+  AtEventStart =>
     /\ Count(evs, LAMBDA h : h[1] = "EOL") = (IF pc \in {"EOL", "Done"} THEN 1 ELSE 0)
     /\ pc \in {"EOL", "Done"} => evs[Len(evs)] = Hdr("EOL", None, None)
 \* a halt request is exactly what stops the loop: the cycle where it stopped is the (only) cycle with a request
@@ -248,9 +278,10 @@ HaltStopsLoopAndRunsEOL ==
 \* "every time node once, in order": the k-th visited node has cumulative node number CumNode(start) + k - 1
 \* (the numbering of CycleArithmetic), so no node is skipped, repeated or taken out of order
 NodesOnceInOrder ==
+  AtEventStart =>
     \A k \in 1..Len(ENs) :
         /\ <<ENs[k][2], ENs[k][3]>> \in Nodes(cfg.steps)
-        /\ CumNode(cfg.steps, ENs[k][2], ENs[k][3]) = CumNode(cfg.steps, cfg.sc, cfg.sn) + k - 1
+        /\ CumNode(cfg.steps, ENs[k][2], ENs[k][3]) = CumNode(cfg.steps, EffStart[1], EffStart[2]) + k - 1
 \* "each followed by tight-coupling iterations until all couplers converge or the iteration cap is reached, unless the
 \*  cycle is exempt"
 CouplingUntilConvergedOrCap ==
@@ -271,7 +302,8 @@ DispatchLaw == pc = "Start" => DispatchLawFor(cfg.ifs, cfg.dcyc, 0..NCycles, {{}
 \* "with the current cycle and node as arguments and reflected in the reactor's time state"
 ArgsMatchTimeState ==
     (pc \in Events /\ called # <<>>) =>
-        /\ lastc.e = pc /\ lastc.rc = rc /\ lastc.rn = rn
+        /\ lastc.e = pc
+        /\ (lastc.rc = rc /\ lastc.rn = rn) \/ (pc = "BOL" /\ lastc.i = cfg.bolset)     \* (the setting hook saw the entry state)
         /\ pc \in {"BOC", "EN", "CPL", "EOC"} => rc = cycle
         /\ pc \in {"BOC", "EOC"} => lastc.c = cycle /\ lastc.n = None
         /\ pc = "EN" => lastc.c = cycle /\ lastc.n = node /\ rn = node
